@@ -31,21 +31,23 @@ TAG_TRUNC = "array_str_trunc"
 
 
 def enc(x):
-    """real cell value -> spec value (int, or list of character codes for a string)."""
+    """real cell value -> spec value: [0, n] for an integer, [1, codes...] for a string (anything else: [9, codes of repr])."""
     import numpy as np
     if isinstance(x, np.generic):
         x = x.item()
     if isinstance(x, str):
-        return [ord(c) for c in x]
+        return [1] + [ord(c) for c in x]
     if isinstance(x, bool):
-        return int(x)
+        return [0, int(x)]
     if isinstance(x, float) and x == int(x):
-        return int(x)
-    return x
+        return [0, int(x)]
+    if isinstance(x, int):
+        return [0, x]
+    return [9] + [ord(c) for c in repr(x)]
 
 
 def dec(v):
-    return "".join(chr(c) for c in v) if isinstance(v, list) else v
+    return v[1] if v[0] == 0 else "".join(chr(c) for c in v[1:])
 
 
 def plain(x):
@@ -251,7 +253,7 @@ def rc_apply(rc, op):
 def rc_obs(rc, kindof, full=True):
     o = {}
     s1, s2 = rc.size(), len(rc)
-    o["size"] = s1 if s1 == s2 else ["#size/len differ", s1, s2]
+    o["size"] = s1 if s1 == s2 else -1          # size() and len() differ
     o["shape"] = list(rc.shape())
     d = rc.to_dict()
     names = list(d.keys())
@@ -262,7 +264,7 @@ def rc_obs(rc, kindof, full=True):
         o["frame"] = opt(lambda: frame_of(rc.to_dataframe(), enc))
 
         def cell(n, c):
-            return [ord(x) for x in c] if kindof.get(names[n]) == "str" else num_or_str(c)
+            return enc(c if kindof.get(names[n]) == "str" else num_or_str(c))
 
         def text():
             t1, t2 = parse_text(rc.to_text(), cell), parse_text(str(rc), cell)
@@ -311,31 +313,32 @@ def cfg_module(table, machines, init="{<<>>}", slim_sort=False):
     sort3 = '{"a", "b"}' if slim_sort else '{"a", "b", "c"}'
     return f"""---- MODULE HelpersCfg ----
 EXTENDS HelpersMC
-X == <<120>>
-YY == <<121, 121>>
+I(n) == <<0, n>>
+X == <<1, 120>>
+YY == <<1, 121, 121>>
 KO == [a |-> "int", b |-> "str", c |-> "int"]
 KA == [a |-> "int", b |-> "int", c |-> "int"]
 ABC == <<"a", "b", "c">>
 D1(r) == << <<"a", r[1]>>, <<"b", r[2]>>, <<"c", r[3]>> >>
 D2(r) == << <<"c", r[3]>>, <<"a", r[1]>>, <<"b", r[2]>> >>
-R1 == <<1, X, 10>>
-R2 == <<1, YY, 20>>
-R3 == <<2, X, 30>>
-A1 == <<1, 5, 10>>
-A2 == <<1, 7, 20>>
-A3 == <<2, 5, 30>>
+R1 == <<I(1), X, I(10)>>
+R2 == <<I(1), YY, I(20)>>
+R3 == <<I(2), X, I(30)>>
+A1 == <<I(1), I(5), I(10)>>
+A2 == <<I(1), I(7), I(20)>>
+A3 == <<I(2), I(5), I(30)>>
 MCMachines == {C.tla_str(set(machines))}
 MCRCConfs == [
   rcl |-> [mode |-> "list", cols |-> ABC, kindof |-> KO, rows |-> {{R1, R2, R3}}, dicts |-> {'{D2(R3)}' if slim_sort else '{D1(R1), D2(R3)}'},
-           short |-> {'{<<1>>, <<1, X, 10, 4>>}' if t else '{}'},
-           baddicts |-> {'{<< <<"a", 1>> >>, D1(R1) \\o << <<"zz", 5>> >>}' if t else '{}'},
+           short |-> {'{<<I(1)>>, <<I(1), X, I(10), I(4)>>}' if t else '{}'},
+           baddicts |-> {'{<< <<"a", I(1)>> >>, D1(R1) \\o << <<"zz", I(5)>> >>}' if t else '{}'},
            sortnames |-> {'{"a", "b"}' if slim_sort else '{"a", "b", "c", "nocol"}'}],
   rca |-> [mode |-> "arr", cols |-> ABC, kindof |-> KA, rows |-> {{A1, A2, A3}}, dicts |-> {{D2(A3)}},
-           short |-> {'{<<1>>}' if t else '{}'}, baddicts |-> {{}}, sortnames |-> {sort3}],
+           short |-> {'{<<I(1)>>}' if t else '{}'}, baddicts |-> {{}}, sortnames |-> {sort3}],
   rct |-> [mode |-> "typed", cols |-> ABC, kindof |-> KO, rows |-> {{R1, R2, R3}}, dicts |-> {{D2(R2)}},
            short |-> {{}}, baddicts |-> {{}}, sortnames |-> {sort3}],
   rcn |-> [mode |-> "list", cols |-> <<>>, kindof |-> KO, rows |-> {{}}, dicts |-> {{D1(R1), D2(R2), D1(R3)}},
-           short |-> {'{<<1, 2>>}' if t else '{}'}, baddicts |-> {{}}, sortnames |-> {{"a", "b", "nocol"}}] ]
+           short |-> {'{<<I(1), I(2)>>}' if t else '{}'}, baddicts |-> {{}}, sortnames |-> {{"a", "b", "nocol"}}] ]
 MCSettings == {C.tla_str(PT_SETTINGS)}
 MCKeys == {{"k1", "k2", "k3"}}
 MCValLists == {{<<1, 2>>, <<3, 4>>}}
@@ -619,7 +622,7 @@ def rand_plan_rc(rnd, maxops):
     strs = STRS if multi else ["a", "b", "c", "B"]
 
     def cell(n):
-        return rnd.randint(0, 4) if kindof[n] == "int" else enc(rnd.choice(strs))
+        return enc(rnd.randint(0, 4) if kindof[n] == "int" else rnd.choice(strs))
     cols = [] if mode == "nocols" else names
     row = lambda: [cell(n) for n in (cols or names)]        # in the order of the existing columns
     rows = [row() for _ in range(rnd.randint(0, 3))] if cols and rnd.random() < 0.4 else []
@@ -633,11 +636,11 @@ def rand_plan_rc(rnd, maxops):
                 ops.append({"op": "append_list", "row": row()[:-1]})
                 break                                   # ragged columns: the model stops here
             elif bad == "long":
-                ops.append({"op": "append_list", "row": row() + [1]})
+                ops.append({"op": "append_list", "row": row() + [enc(1)]})
             elif bad == "dictmiss" and len(names) > 1:
                 ops.append({"op": "append_dict", "row": [[n, cell(n)] for n in names[1:]]})
             else:
-                ops.append({"op": "append_dict", "row": [[n, cell(n)] for n in names] + [["zz", 1]]})
+                ops.append({"op": "append_dict", "row": [[n, cell(n)] for n in names] + [["zz", enc(1)]]})
         elif x < 0.35 and cols:
             ops.append({"op": "append_list", "row": row()})
         elif x < 0.7 or k == 0:
